@@ -314,6 +314,13 @@ func (s *httpServer) onRequestHTTPS3(ctx *gin.Context) {
 		return
 	}
 
+	// a CONNECT request without the :protocol pseudo-header has no path,
+	// and the HTTP/3 handler chain does not include handlerFilterRequests.
+	if ctx.Request.URL.Path == "" || ctx.Request.URL.Path[0] != '/' {
+		ctx.AbortWithStatus(http.StatusBadRequest)
+		return
+	}
+
 	pathName := ctx.Request.URL.Path[1:]
 
 	// support legacy /moq suffix
